@@ -125,7 +125,7 @@ func quote(s string) string {
 const mhead = "module m { namespace \"urn:m\"; prefix m; "
 
 func (r *runner) arguments() {
-	idStrings := []string{"a", "_a", "a-b.c", "A9", "1a", "-a", ".a", "a b", "xmlfoo", "XmLa", "xm", "é", "", "a:b", "a/b", "a*", "a_", "a..b", "a\u00a0", "\fa", "a\u200b"}
+	idStrings := []string{"a", "_a", "a-b.c", "A9", "1a", "-a", ".a", "a b", "xmlfoo", "XmLa", "xm", "é", "", "a:b", "a/b", "a*", "a_", "a..b", "a\u00a0", "\fa", "a\u200b", "xml", "XML", "xMl", "Xml", "xm-l", "xmlx", "x", "_xml"}
 	kinds := []argKind{
 		{"identifier", []string{"leaf %s { type string; }", "container %s;", "grouping %s;", "feature %s;", "identity %s;", "extension %s;", "typedef %s { type string; }", "choice c { case %s; }", "rpc %s;"},
 			b2(rfc6020.Identifier), idStrings},
